@@ -35,24 +35,29 @@ MORE = {
         tech="contract-based deductive verification (Verus): value-preserving-restore contract (counts, frame, tree equality)",
         ref="4/C04"),
     "C05": dict(
-        text="Partial proof (Verus), fast paths: four of the five `no-fastpath` gates and the path-lookup fast path are verified in BOTH builds "
+        text="Proof (Verus) for the fast paths, partial for the diagnostic builds: all five `no-fastpath` gates and the path-lookup fast path are verified in BOTH builds "
              "against one contract each (every unit that contains a gate is assembled twice from the cfg-evaluated source): inline "
              "small-integer path lookup (traverse_path_fast == traverse_path on the canonical bytes, eval_pair), the precomputed-digest path of "
              "op_sha256 (table checked completely against hashlib on every run), the small-integer comparison of op_gr, the inline-operand arm of "
-             "op_multiply. The u64/i64 fast paths of op_add and op_subtract are out of reach (closure capturing &mut locals, rand), and the "
-             "counters / pre-eval instrumentation builds are not under contract (build-differential, outside this technique's reach here).",
-        note=TB + "Atom::as_ref assumed to return the atom's bytes (no-fastpath variant); bignum products / magnitudes are library assumptions.",
+             "op_multiply, and the u64 / i64 accumulation of op_add / op_subtract (each fast path is an immediately-invoked closure, lifted "
+             "mechanically to a function of its own on every run (R20); it is proved to return exactly the documented cost and the exact sum, "
+             "or to hand over to the bignum path, which satisfies the same contract; the repo's `impl Limbs for u64 / i64` is proved to count "
+             "magnitude bytes). The counters / pre-eval instrumentation builds are not under contract (build-differential, outside this "
+             "technique's reach here).",
+        note=TB + "Atom::as_ref assumed to return the atom's bytes (no-fastpath variant); bignum products / sums / magnitudes are library "
+             "assumptions; that the bignum's magnitude size equals the machine integer's magnitude bytes for values below 2^64 is the assumed "
+             "library link axiom_limbs_small (the repo's test_limbs_agreement samples it).",
         tech="contract-based deductive verification (Verus): two implementations against one spec function; unit assembled under two feature sets",
-        ref="4/C05, 11.1, 11.7, 11.11"),
+        ref="4/C05, 11.1, 11.7, 11.11, 11.16"),
     "C10": dict(
         text="Partial proof (Verus) for the operators under contract: if, cons, first, rest, listp, raise, eq, not, any, all, strlen, concat, "
              "sha256, sha256tree (per pair and per byte over the fully expanded tree, whether or not sub-trees are shared), div, divmod, mod, "
-             "modpow, gr (>), gr_bytes (>s), multiply, logand/logior/logxor (new model: per byte of max(argument, accumulator magnitude)), lognot, "
+             "modpow, add, subtract, gr (>), gr_bytes (>s), multiply, logand/logior/logxor (new model: per byte of max(argument, accumulator magnitude)), lognot, "
              "ash, lsh, substr, coinid, secp256k1/r1 verify charge exactly their documented constants / formulas over argument sizes, accumulator "
              "magnitudes and result size, in both cost models; unknown operators charge the opcode rule (C09); uint_atom / i32_atom decode exactly "
-             "the documented operand domains; the path lookup charges 44 + 4 per leading zero byte + 4 per bit. NOT under contract: add, subtract "
-             "(their fast path is an immediately-invoked closure that captures mutable locals, outside Verus's fragment), point_add, "
-             "pubkey_for_exp, the BLS and keccak operators; for these only the concrete search (vreplay search C10: + and - are in its grid) applies.",
+             "the documented operand domains; the path lookup charges 44 + 4 per leading zero byte + 4 per bit; add and subtract (both builds; new "
+             "model: per byte of max(operand length, magnitude of the running total)). NOT under contract: point_add, pubkey_for_exp, the BLS and "
+             "keccak operators.",
         note=TB,
         tech="contract-based deductive verification (Verus): exact-cost and success-condition postconditions per operator",
         ref="4/C10, 11.1, 11.7, 11.9, 11.11, 11.13-11.15"),
@@ -63,8 +68,10 @@ MORE = {
              "ban on modpow); (3) binop_reduction, the mechanism the property names (single accumulator under the new model, positive / negative "
              "split accumulators before), is verified in three specialised copies (logand, logior, logxor): in both models the result is the "
              "left fold of the operator over the operands, proved from associativity, commutativity and the identity of the bit operation (assumed "
-             "library facts), whichever accumulator an operand goes to. Operators not under contract (add, subtract: the other named mechanism; "
-             "BLS, keccak) are outside the proof; + and - are covered by the concrete search only.",
+             "library facts), whichever accumulator an operand goes to; (4) op_add / op_subtract, the other named mechanism (one accumulator "
+             "under the new model, two randomly chosen accumulators plus a small-integer accumulator before): in both models and both builds "
+             "the result is the exact sum / difference, for EVERY choice of the random accumulator index. Operators not under contract (BLS, "
+             "keccak, point_add, pubkey_for_exp) are outside the proof.",
         note=TB,
         tech="contract-based deductive verification (Verus): value postconditions independent of the flags argument; routing lemma over the dispatch table",
         ref="4/C11, 11.1"),
@@ -74,7 +81,9 @@ MORE = {
              "LIMIT_HEAP; MEMPOOL_MODE is one) never changes WHICH operator an opcode selects: it can only turn the selection into the "
              "Unimplemented error (modpow under DISABLE_OP, unknown opcodes under NO_UNKNOWN_OPS); (2) uint_atom under CANONICAL_INTS "
              "accepts a subset of what it accepts without and returns the same value; (3) the operators under contract (if, cons, first, "
-             "rest, listp, raise, eq, not, any, all, strlen, concat) have value and cost clauses that do not mention the restriction flags; "
+             "rest, listp, raise, eq, not, any, all, strlen, concat, substr, >s, lognot, ash, lsh, logand/logior/logxor, coinid, >, *) have value and cost "
+             "clauses that do not mention the restriction flags, and div/divmod/mod/modpow mention LIMITS / DISABLE_OP only in the clause that "
+             "turns a call into InvalidOpArg; "
              "(4) apply_op's LIMIT_SOFTFORK test only adds a failure. Whole-run monotonicity is the composition of these (relational, not "
              "mechanised); operators not under contract (arithmetic, BLS incl. RELAXED_BLS, hashing) are outside the claim.",
         note=TB + "The 47 operator functions enter the dispatch proof as ASSUMED deterministic witnesses (listed one by one).",
